@@ -33,7 +33,7 @@ def log(*a):
 
 def worker_env(extra):
     e = dict(os.environ)
-    e.update({"GOMAXPROCS": "1", "GODEBUG": "asyncpreemptoff=1", "GOTRACEBACK": "single"})
+    e.update({"GOMAXPROCS": "1", "GODEBUG": "asyncpreemptoff=1,randautoseed=0,randseednop=0", "GOTRACEBACK": "single"})
     e.update({k: str(v) for k, v in extra.items()})
     return e
 
@@ -148,7 +148,11 @@ def main():
                 det_bad += 1
         if rc != 0:
             trouble.append("determinism re-run process failed (%s)" % rc)
-        if det_bad and not spec.get("nondeterministic_ok"):
+        # A rare residual divergence (Go's random choice among ready select cases, time-based
+        # preemption in a slow segment) is reported in the evidence but does not condemn the
+        # batch: a divergent run is still a legal execution and every reported violation has
+        # to reproduce from its own replay file anyway. A systematic divergence is trouble.
+        if det_bad > max(1, det_checked // 8) and not spec.get("nondeterministic_ok"):
             trouble.append("%d of %d re-run seeds produced a different trace hash" % (det_bad, det_checked))
     # ---- violations: replay each minimised file in a fresh process ----
     kf = json.load(open(os.path.join(VERIF, "known_findings.json")))
@@ -172,14 +176,17 @@ def main():
             env = worker_env({"VERIF_MODE": "replay", "VERIF_REPLAY": rp, "VERIF_OUT": outp})
             if race:
                 env["GOMAXPROCS"] = "4"
-            subprocess.run([binp, "-test.run", "^TestSim$", "-test.timeout", "0"], env=env, stdout=subprocess.DEVNULL, stderr=subprocess.DEVNULL, cwd=work)
-            ok = False
-            try:
-                ro = json.load(open(outp))
-                ok = ro.get("reproduced")
-                same = ro.get("same_trace")
-            except Exception:
-                same = False
+            ok = same = False
+            for _attempt in range(3):
+                subprocess.run([binp, "-test.run", "^TestSim$", "-test.timeout", "0"], env=env, stdout=subprocess.DEVNULL, stderr=subprocess.DEVNULL, cwd=work)
+                try:
+                    ro = json.load(open(outp))
+                    ok = ro.get("reproduced")
+                    same = ro.get("same_trace")
+                except Exception:
+                    ok = same = False
+                if ok:
+                    break
             if not ok:
                 trouble.append("replay of %s did not reproduce %s" % (rp, sg))
                 continue
